@@ -255,6 +255,9 @@ class XCubeMatchingDecoder(BaseDecoder):
                   for z in range(1, 2*Lz, 2)}
         }
 
+        # Work on a copy so that the caller's syndrome is left untouched
+        syndrome = np.array(syndrome)
+
         # Remove X stabilizer syndrome and keep it for later
         x_syndrome = self.code.extract_x_syndrome(syndrome)
         syndrome[self.code.x_indices] = 0
